@@ -311,6 +311,11 @@ def signature(clause: str, c: Case, ev: dict) -> dict:
         return {'clause': 'build-fails-documented' if clause == 'foreign-exception' else clause,
                 'type_kind': tkind(c.bf[1]), 'value_kind': '-', 'outcome': 'exc:' + c.bf[0]}
     sig = {'clause': clause, 'type_kind': tkind(c.T), 'value_kind': vkind(c.v, c.T)}
+    if ev.get('op') == 'render' and 'rtree' in ev:
+        sig['shape'] = tree_shape(ev['rtree'])
+        lay = _tagged_layout(c.T)
+        if lay:
+            sig['tagged'] = lay
     if c.T['k'] == 'cls':
         sig['features'] = cls_features(c.T)
         sig['value_features'] = cls_value_features(c.T, c.v)
@@ -621,3 +626,223 @@ def ev_snapshot_construct(ident: int, c: Case) -> dict:
     after = snap(val)
     return {'id': ident, 'op': 'snapshot', 'api': 'construct', 'ty': c.T, 'val': c.v, 'same': 'T' if before == after else 'F',
             'out': {'k': k, 'c': ''}}
+
+
+# ---------------------------------------------------------------------------------------
+# error trees (C07, C08)
+def _key_atom(k) -> dict:
+    if isinstance(k, bool) or not isinstance(k, (int, str)):
+        return {'k': 'str', 's': vocab.tok('?' + repr(k))}
+    if isinstance(k, int):
+        return {'k': 'int', 'n': k}
+    return {'k': 'str', 's': vocab.tok(k)}
+
+
+def _act(x) -> dict:
+    try:
+        return abstract(x)
+    except (OutOfVocab, RecursionError):
+        return {'k': 'alien', 'c': type(x).__name__}
+
+
+def _cause(tb) -> str:
+    if tb is None:
+        return ''
+    try:
+        return vocab.tok(''.join(tb.format_exception_only()).strip().split('\n')[-1])
+    except Exception:  # noqa
+        return vocab.tok('?cause')
+
+
+def abstract_tree(node) -> dict:
+    from pane import errors as E
+    if isinstance(node, E.WrongTypeError):
+        return {'k': 'wt', 'exp': vocab.tok(str(node.expected)), 'act': _act(node.actual), 'cause': _cause(node.cause)}
+    if isinstance(node, E.WrongLenError):
+        return {'k': 'wl', 'exp': vocab.tok(str(node.expected)), 'act': _act(node.actual), 'cause': '',
+                'lo': node.expected_len[0], 'hi': node.expected_len[1], 'len': node.actual_len}
+    if isinstance(node, E.ConditionFailedError):
+        return {'k': 'cf', 'exp': vocab.tok(str(node.expected)), 'act': _act(node.actual), 'cause': _cause(node.cause),
+                'cond': vocab.tok(str(node.condition))}
+    if isinstance(node, E.DuplicateKeyError):
+        return {'k': 'dup', 'key': _key_atom(node.key), 'aliases': [vocab.tok(a) for a in node.aliases]}
+    if isinstance(node, E.ProductErrorNode):
+        return {'k': 'prod', 'exp': vocab.tok(str(node.expected)),
+                'ch': [[_key_atom(k), abstract_tree(c)] for k, c in node.children.items()],
+                'missing': sorted(vocab.tok(m) if isinstance(m, str) else vocab.tok('/'.join(m)) for m in node.missing),
+                'extra': sorted(_key_atom(x)['s'] if _key_atom(x)['k'] == 'str' else vocab.tok('?' + repr(x)) for x in node.extra),
+                'act': _act(node.actual)}
+    if isinstance(node, E.SumErrorNode):
+        return {'k': 'sum', 'ch': [abstract_tree(c) for c in node.children]}
+    return {'k': 'alien', 'c': type(node).__name__}
+
+
+def _tree_of(ty, val):
+    try:
+        pane.from_data(val, ty)
+    except ConvertError as e:
+        return e.tree
+    except Exception:  # noqa
+        return None
+    return None
+
+
+def ev_tree(ident: int, c: Case) -> dict:
+    """C07: the tree of the failed conversion plus, for each direct child of a product / sum
+    node, the tree that the element's own type reports for that sub-value alone."""
+    e = {'id': ident, 'op': 'tree', 'ty': c.T, 'val': c.v, 'alone': []}
+    tree = _tree_of(c.ty, c.val)
+    if tree is None:
+        e['tree'] = {'k': 'none'}
+        e['out'] = {'k': 'no-tree'}
+        return e
+    e['tree'] = abstract_tree(tree)
+    e['out'] = {'k': e['tree']['k']}
+    # stand-alone trees of the structural children (element type's own converter, sub-value alone)
+    alone = []
+    for idx, (kT, kv) in enumerate(children(c.T, c.v)):
+        try:
+            kc = Case(kT, kv, c.sp)
+        except Exception:  # noqa
+            continue
+        if kc.err is not None or kc.bf is not None:
+            continue
+        t2 = _tree_of(kc.ty, kc.val)
+        alone.append({'ty': kT, 'val': kv, 'tree': abstract_tree(t2) if t2 is not None else {'k': 'none'}})
+    e['alone'] = alone
+    return e
+
+
+def ev_render(ident: int, c: Case) -> dict:
+    """C08: rendering of the error tree. Python reports only: did str() raise, is it stable, and
+    at which offsets each string that occurs in the recorded tree occurs in the text."""
+    import copy as _copy
+    e = {'id': ident, 'op': 'render', 'ty': c.T, 'val': c.v}
+    err = None
+    try:
+        pane.from_data(c.val, c.ty)
+    except ConvertError as ex:
+        err = ex
+    except Exception:  # noqa
+        pass
+    if err is None:
+        e.update(tree={'k': 'none'}, raised='F', stable='T', occ=[], out={'k': 'no-tree'})
+        return e
+    tree = abstract_tree(err.tree)
+    e['tree'] = tree
+    try:
+        txt = str(err)
+        e['raised'] = 'F'
+    except Exception:  # noqa
+        e.update(raised='T', stable='T', occ=[], out={'k': 'render-raised'})
+        return e
+    try:
+        again = str(err)
+        fresh = None
+        try:
+            pane.from_data(c.val, c.ty)
+        except ConvertError as ex2:
+            fresh = str(ex2)             # the tree of an independent second failure renders the same
+        e['stable'] = 'T' if txt == again == fresh and txt == str(err.tree) else 'F'
+    except Exception:  # noqa
+        e['stable'] = 'F'
+    frags = render_fragments(err.tree)
+    occ = []
+    for name, s in frags.items():
+        offs = [-1] if s == '' else []
+        if s != '':
+            i = txt.find(s)
+            while i != -1:
+                offs.append(i)
+                i = txt.find(s, i + 1)
+            if len(offs) > 160:      # keep the wire small: the earliest and the latest occurrences decide
+                offs = offs[:80] + offs[-80:]
+        occ.append([name, offs])
+    e['occ'] = occ
+    e['rtree'] = render_tree(err.tree, frags)
+    e['out'] = {'k': 'rendered'}
+    return e
+
+
+def render_fragments(node, acc=None, names=None) -> dict:
+    """fragment id -> the text that must be searched for, for every string occurring in the tree."""
+    from pane import errors as E
+    acc = {} if acc is None else acc
+
+    def add(text):
+        text = str(text)
+        for k, v in acc.items():
+            if v == text:
+                return k
+        k = 'f' + str(len(acc) + 1)
+        acc[k] = text
+        return k
+    if isinstance(node, (E.WrongTypeError, E.WrongLenError, E.ConditionFailedError)):
+        add(node.expected)
+        add(f'{node.actual}')
+        tb = getattr(node, 'cause', None)
+        if tb is not None:
+            add(_cause_text(tb))
+    elif isinstance(node, E.DuplicateKeyError):
+        add(node.key)
+        for a in node.aliases:
+            add(a)
+    elif isinstance(node, E.ProductErrorNode):
+        for k, ch in node.children.items():
+            add(k)
+            render_fragments(ch, acc)
+        for m in node.missing:
+            add(m if isinstance(m, str) else '/'.join(m))
+        for x in node.extra:
+            add(x)
+    elif isinstance(node, E.SumErrorNode):
+        for ch in node.children:
+            render_fragments(ch, acc)
+    return acc
+
+
+def _cause_text(tb) -> str:
+    try:
+        return ''.join(tb.format_exception_only()).strip().split('\n')[-1]
+    except Exception:  # noqa
+        return '?cause'
+
+
+def render_tree(node, frags: dict) -> dict:
+    """The tree again, with every string replaced by its fragment id (for the TLC-side Needs)."""
+    from pane import errors as E
+    inv = {v: k for k, v in frags.items()}
+    f = lambda s: inv[str(s)]  # noqa
+    if isinstance(node, (E.WrongTypeError, E.WrongLenError, E.ConditionFailedError)):
+        tb = getattr(node, 'cause', None)
+        return {'k': 'leaf', 'exp': f(node.expected), 'val': f(f'{node.actual}'), 'cause': f(_cause_text(tb)) if tb is not None else ''}
+    if isinstance(node, E.DuplicateKeyError):
+        return {'k': 'dup', 'key': f(node.key), 'aliases': [f(a) for a in node.aliases]}
+    if isinstance(node, E.ProductErrorNode):
+        return {'k': 'prod', 'ch': [[f(k), render_tree(c, frags)] for k, c in node.children.items()],
+                'missing': [f(m if isinstance(m, str) else '/'.join(m)) for m in node.missing],
+                'extra': [f(x) for x in node.extra]}
+    if isinstance(node, E.SumErrorNode):
+        return {'k': 'sum', 'ch': [render_tree(c, frags) for c in node.children]}
+    return {'k': 'alien'}
+
+
+def tree_shape(rt: dict, depth: int = 2) -> str:
+    k = rt.get('k')
+    if k in ('leaf', 'dup', 'alien') or depth == 0:
+        return k
+    if k == 'prod':
+        return 'prod[' + ','.join(tree_shape(c[1], depth - 1) for c in rt['ch']) + ']'
+    if k == 'sum':
+        return 'sum[' + ','.join(tree_shape(c, depth - 1) for c in rt['ch']) + ']'
+    return str(k)
+
+
+def _tagged_layout(T: dict):
+    if T['k'] == 'tagged':
+        return T['lay']
+    for sub in type_children(T):
+        r = _tagged_layout(sub)
+        if r:
+            return r
+    return None
